@@ -57,7 +57,9 @@ reg("C17", "exploration",
 reg("C19", "exploration",
     "Exhaustive enumeration of every sorted interval list (and pair of lists) over a small universe plus Hypothesis "
     "random large instances, each compared with a set-of-positions reference model; profile constructors checked "
-    "three-valued (MUST present / MUST absent / unspecified). Exhaustive for the bounded universe, sampled beyond it.",
+    "three-valued (MUST present / MUST absent / unspecified), a generated mid-size stage (features of 1..delta+2 "
+    "bases, deltas 0-6) and a mirror-image relation for the split-exon profile. Exhaustive for the bounded universe, "
+    "sampled beyond it.",
     "Semantics taken from docstrings and callers; features no longer than delta and read gaps no longer than delta are "
     "outside the domain (see DESIGN.md section 8).",
     "exhaustive small-universe enumeration + property-based testing (Hypothesis) + coverage-guided fuzzing (atheris/libFuzzer driving the same strategies) against a reference model",
@@ -227,7 +229,12 @@ reg("C07", "fault_enumeration",
     "main process after .params is saved (file creation, append-open, removal, directory and database creation; "
     "70-300 points per scenario) and, for every point, kills the run once before and once after "
     "the mutation, resumes it with --resume and compares every final output with an uninterrupted run: the resumed "
-    "run must exit 0 with identical files. Exhaustive per scenario.",
+    "run must exit 0 with identical files. Exhaustive per scenario for single kills; on top of that histories with "
+    "two kills (the resumed run is killed at generated points of its own, incl. the rewriting of .params, and resumed "
+    "again) and stage shared_saves (two runs restarted from the same saved assignments, one killed and abandoned, "
+    "the other killed and resumed). Scenario dimensions: read groups by tag/table (names with blanks), --keep_tmp, "
+    "gzip, plain-gzipped reference, re-used output folder of an earlier run (same or uncorrected reference, folder "
+    "names with glob characters), YAML input, relative input names with --resume from another directory.",
     "Crash model: os._exit at Python-level mutations of the main process with --threads 1 (unflushed buffers lost); "
     "crashes inside sqlite/htslib are one point each.",
     "fault injection with exhaustive crash-point enumeration over generated scenarios; differential oracle",
@@ -237,8 +244,13 @@ reg("C20", "exploration",
     "against one HOME under a cooperative scheduler owned by the harness that switches at every open, read, write "
     "chunk, close and rename of the shared JSON files and around the real gffutils conversion; the schedule is a "
     "Hypothesis-drawn sequence (replayable); every process must finish and use a database built from its own "
-    "annotation. A smoke stage starts 2-6 real processes together and compares each with a solo run.",
-    "Assumes the file system is the only channel between runs and that rename(2)/a single write(2) are atomic.",
+    "annotation. Stage reference_index does the same for the index files (.fai/.gzi) next to a shared plain or "
+    "bgzip-compressed reference; stage mapper_cache runs the real index/alignment cache logic under generated "
+    "options (data type, aligner, --stranded) around stand-ins for the two external programs that record the options "
+    "they ran under. A smoke stage starts 2-6 real processes together (plain or bgzip-compressed reference) and "
+    "compares each with a solo run.",
+    "Assumes the file system is the only channel between runs and that rename(2)/a single write(2) are atomic; no "
+    "aligner is installed: minimap2/STAR are represented by stand-ins, only IsoQuant's decisions are checked.",
     "property-based testing over harness-owned schedules (cooperative scheduler) + differential smoke runs",
     "DESIGN.md section 4 C20")
 
